@@ -266,7 +266,14 @@ def plan_C19(seed, run, engine, tier="quick", entry=None):
             if kk in k:
                 kq[kk] = k[kk]
         ops.append(dict(op="quiesce", knobs=kq, start="cold", storage=prob["storage"], optimum=False,
-                        liveness=False, twin_liveness=True))
+                        liveness=False, twin_liveness=True, budget=[60, 500]))
+        for o in ops[:-1]:
+            # (a solver that the degenerate structure keeps from terminating would otherwise burn
+            # the ample budgets of the earlier operations and the run its wall cap)
+            o["knobs"]["max_iter"] = min(o["knobs"].get("max_iter", 20), 20)
+            for kk in ("max_epochs",):
+                if kk in o["knobs"]:
+                    o["knobs"][kk] = min(o["knobs"][kk], 200)
     if rest and solver in ("AndersonCD", "MultiTaskBCD", "GramCD"):
         # "... never fails to terminate": coordinate descent with exact coordinate steps is
         # invariant under column scaling, so a blown-up column may not keep a well-conditioned
